@@ -33,7 +33,7 @@ class C14(pw.P21Check):
 
     def gen(self, seed, i, tier):
         r = core.rng(seed, "C14", i)
-        nbase = 50 if tier == "quick" else 1500
+        nbase = 330 if tier == "quick" else 3000
         j = r.randrange(nbase)
         a = self.base_plan(seed, j, popts={"ids": r.choice(["dense", "sparse", "scattered"])}, tag="A")
         plan = dict(a)
